@@ -330,6 +330,12 @@ type Options struct {
 	ChooseCost int // cost of a non-default Choose answer (default 1; 0 = free input enumeration)
 	MaxExecs   int64
 	FreeChoose bool
+	// Delay switches from preemption bounding to delay bounding (Emmi, Qadeer,
+	// Rakamaric 2011): the default scheduler is non-preemptive lowest-id-first and
+	// taking the j-th alternative at any scheduling point costs j, also when the
+	// running thread is blocked or finished. Polynomial in the number of points
+	// whatever the number of threads.
+	Delay bool
 }
 
 // Stats of an exploration.
@@ -405,19 +411,25 @@ func Explore(o Options, body func(), check func(x *Exec)) Stats {
 			st.MaxThreads = x.Threads
 		}
 		check(x)
+		altCost := func(p Decision, alt int) int {
+			if o.Delay && p.Kind == "sched" {
+				return alt
+			}
+			return p.AltCost
+		}
 		cost := 0
 		for i := 0; i < len(prefix) && i < len(x.Points); i++ {
 			if x.Points[i].Chosen != 0 {
-				cost += x.Points[i].AltCost
+				cost += altCost(x.Points[i], x.Points[i].Chosen)
 			}
 		}
 		choices := x.Choices()
 		for i := len(prefix); i < len(x.Points); i++ {
 			p := x.Points[i]
-			if cost+p.AltCost > o.Bound {
-				continue
-			}
 			for alt := 1; alt < p.N; alt++ {
+				if cost+altCost(p, alt) > o.Bound {
+					break
+				}
 				np := append(append(make([]int, 0, i+1), choices[:i]...), alt)
 				rec(np, x.Points[:i])
 			}
